@@ -1,4 +1,5 @@
 import CaoProofs.Lemmas.CompilerLemmas
+import CaoProofs.Lemmas.WithStd
 import CaoModel.CardOps
 /-!
 # Trace entries of the compiler: where they point and which opcode they label (C15)
@@ -1647,9 +1648,9 @@ theorem flatten_spec_all :
     · obtain ⟨n', s', hm, hfn⟩ := b2 f hf
       exact ⟨n', s', List.mem_cons_of_mem _ hm, hfn⟩
 
-/-- the module the compiler works on: the source module with the standard library as an extra
-submodule `std` -/
-def withStd (m std : Module) : Module := Module.mk (m.submodules ++ [("std", std)]) m.functions m.imports
+/- (`withStd`: the module the compiler works on — the source module with the standard library as an
+extra submodule `std` — is defined in `Lemmas/WithStd.lean`) -/
+example (m std : Module) : withStd m std = Module.mk (m.submodules ++ [("std", std)]) m.functions m.imports := rfl
 
 /-- `f` is the flattened form of function number `f.functionIndex` of the module at path `f.ns` -/
 def FnAt (m : Module) (f : FunctionIr) : Prop :=
